@@ -513,6 +513,11 @@ var exprKindFillers = []struct{ kind, text string }{
 	{"InterfaceType", "interface{ M() }"}, {"InterfaceType", "interface{}"},
 	{"MapType", "map[string]int"},
 	{"ChanType", "chan int"}, {"ChanType", "<-chan int"}, {"ChanType", "chan<- int"},
+	// types that end in a qualified name, a bracket, a brace or a parenthesis: what follows them in the rewritten code
+	// (a selector, an index) attaches differently than behind a type that ends in a plain name
+	{"ArrayType", "[]pkg.T"}, {"ArrayType", "[2][]G[int]"}, {"ArrayType", "[]struct{ A int }"}, {"ArrayType", "[]*T"},
+	{"MapType", "map[string]pkg.T"}, {"MapType", "map[K][]func() error"}, {"ChanType", "chan pkg.T"}, {"ChanType", "chan func() int"},
+	{"FuncType", "func() (int, error)"}, {"FuncType", "func() pkg.T"}, {"FuncType", "func(...int) (n int)"}, {"StarExpr", "*[]int"},
 }
 
 // kindCensus binds one metavariable, in several pattern positions, to every kind of expression.
